@@ -163,7 +163,32 @@ impl Prop for C14 {
         if squeezed.contains("| |") || squeezed.contains("||{") || squeezed.contains("|| {") || squeezed.contains("= ||") {
             tags.push("has_lambda_without_parameters".into());
         }
-        if squeezed.contains(" = 100.0,") || squeezed.contains("(x = ") {
+        // a function header whose parameter list contains `=`
+        let has_default = squeezed.match_indices("fn ").any(|(i, _)| {
+            let rest = &squeezed[i..];
+            match (rest.find('('), rest.find('{')) {
+                (Some(a), Some(b)) if a < b => {
+                    let mut depth = 0;
+                    let mut end = None;
+                    for (k, ch) in rest[a..].char_indices() {
+                        match ch {
+                            '(' => depth += 1,
+                            ')' => {
+                                depth -= 1;
+                                if depth == 0 {
+                                    end = Some(a + k);
+                                    break;
+                                }
+                            }
+                            _ => {}
+                        }
+                    }
+                    end.map(|e| rest[a..e].contains('=')).unwrap_or(false)
+                }
+                _ => false,
+            }
+        });
+        if has_default || squeezed.contains(" = 100.0,") || squeezed.contains("(x = ") {
             tags.push("has_default_parameter".into());
         }
         if src.trim_end().lines().last().map(|l| l.trim_start().starts_with("//")).unwrap_or(false) {
